@@ -103,11 +103,15 @@ def run_real(binp, cfg, sched, stale=()):
     tmp = tempfile.mkdtemp(prefix="c11_", dir=os.path.join(common.WORK))
     procs = []
     try:
-        for (name, content) in stale:
-            open(os.path.join(tmp, name), "w").write(content)
         for i, (mp, nfun) in enumerate(cfg):
             procs.append(Proc(i, mp, nfun, tmp, binp))
         realpid = {p.p.pid: cfg[p.idx][0] for p in procs}
+        # stale files of "dead processes with a recycled pid": planted while every process is still blocked at its first probe
+        stale_names = set()
+        for (idx, k, ext) in stale:
+            stale_names.add("%s%d_%d.%s" % (PREFIX, procs[idx].p.pid, k, ext))
+            open(os.path.join(tmp, "%s%d_%d.%s" % (PREFIX, procs[idx].p.pid, k, ext)), "w").write(
+                "#include <math.h>\nvoid fn(double *result, double x)\n{\n   *result = x+(99000.0);\n}\n")
         for i in sched:
             if i < len(procs) and not procs[i].finished:
                 procs[i].advance()
@@ -123,6 +127,8 @@ def run_real(binp, cfg, sched, stale=()):
             else:
                 part, k = "-", base
             tag = so_tag(os.path.join(tmp, fn)) if ext == "so" else c_tag(os.path.join(tmp, fn))
+            if fn in stale_names:
+                tag = 99000          # untouched stale file (content is not inspected)
             files.append((part, int(k), ext, tag))
         lines = []
         for p in procs:
@@ -154,8 +160,10 @@ def run_real(binp, cfg, sched, stale=()):
         shutil.rmtree(tmp, ignore_errors=True)
 
 
-def run_model(usespid, cfg, sched):
+def run_model(usespid, cfg, sched, stale=()):
     lines = ["usespid %d" % (1 if usespid else 0), "atomicprobe 1"]
+    for (idx, k, ext) in stale:
+        lines.append("file %d %d %s 99 0" % (cfg[idx][0], k, ext))
     for mp, nfun in cfg:
         lines.append("proc %d %d" % (mp, nfun))
     lines.append("sched " + " ".join(str(i) for i in sched))
@@ -257,7 +265,11 @@ def run(ctx):
     cases = []
     for cfg, n in zip(configs, nsched):
         for s in schedules(r, cfg, n):
-            cases.append((cfg, s))
+            stale = ()
+            if r.random() < 0.35:
+                # every process finds its first-choice name taken (stale .c or .so of a dead process with the same pid)
+                stale = tuple((i, 0, r.choice(["c", "so"])) for i in range(len(cfg)) if r.random() < 0.8)
+            cases.append((cfg, s, stale))
     diffs = []
     viol = None
     samples = []
@@ -267,13 +279,13 @@ def run(ctx):
         flag = True if uses_pid is None else uses_pid
 
         def one(case):
-            cfg, s = case
-            real_lines, files = run_real(binp, cfg, s)
+            cfg, s, stale = case
+            real_lines, files = run_real(binp, cfg, s, stale)
             return case, real_lines, files
         with ThreadPoolExecutor(max_workers=8) as ex:
             results = list(ex.map(one, cases))
-        for (cfg, s), real_lines, files in results:
-            mprocs, mfs = run_model(flag, cfg, s)
+        for (cfg, s, stale), real_lines, files in results:
+            mprocs, mfs = run_model(flag, cfg, s, stale)
             a = canon_real(real_lines, files)
             b = canon_model(mprocs, mfs)
             complete = all(st != "running" for (_, st, _, _) in real_lines)
@@ -281,17 +293,19 @@ def run(ctx):
             hist["procs%d" % len(cfg)] += 1
             if any(st == "error" for (_, st, _, _) in mprocs):
                 hist["model_error_states"] += 1
+            if stale:
+                hist["with_stale_files"] = hist.get("with_stale_files", 0) + 1
             if a != b:
-                diffs.append(dict(config=cfg, schedule=s, real=a, model=b))
-            errs = oracle(cfg, real_lines, files, complete)
+                diffs.append(dict(config=cfg, schedule=s, stale_files=stale, real=a, model=b))
+            errs = oracle(cfg, real_lines, [f for f in files if f[3] != 99000], complete)
             if errs and viol is None:
-                viol = dict(config=cfg, schedule=s, errors=errs, real_processes=real_lines, files=files)
+                viol = dict(config=cfg, schedule=s, stale_files=[dict(process=i, counter=k, ext=e) for (i, k, e) in stale], errors=errs, real_processes=real_lines, files=files)
             if len(samples) < 3:
-                samples.append(dict(config=cfg, schedule=s[:30], real=str(a)[:300]))
+                samples.append(dict(config=cfg, schedule=s[:30], stale_files=stale, real=str(a)[:300]))
     ctx.oblige("correspondence funccompile: Lean model = real processes on %d forced interleavings" % len(cases), okh and not diffs,
                "" if not diffs else "first difference: %s" % str(diffs[0])[:600])
     ctx.oblige("oracle on the real runs: own code, no failure, no file left (%d runs)" % len(cases), viol is None, str(viol)[:300])
-    ctx.coverage.update(dict(evaluations=len(cases), distinct_nontrivial=len({(str(c), tuple(s)) for c, s in cases if len(set(s)) > 1}),
+    ctx.coverage.update(dict(evaluations=len(cases), distinct_nontrivial=len({(str(c), tuple(s), st) for c, s, st in cases if len(set(s)) > 1}),
                              rule="forced interleavings of 2-3 real processes (1-2 expressions each) at the scheduling points probe/openC/writeC/gcc/rmC/dlopen/rmSo: the Lean race-witness schedules, lock-step patterns and random interleavings (half with a lock-step prefix, 30% truncated); non-trivial = at least two processes are scheduled",
                              samples=samples, histogram=hist, traces_validated_against_impl=len(cases)))
     ctx.assumptions += ["atomicity of stat, open(O_TRUNC), unlink and of gcc writing its output (OS contract)",
